@@ -7,6 +7,7 @@ func init() {
 	vHarnesses["H_C19_jsonfile"] = H_C19_jsonfile
 	vHarnesses["H_C19_damaged"] = H_C19_damaged
 	vHarnesses["H_C19_copy"] = H_C19_copy
+	vHarnesses["H_C19_rewrite"] = H_C19_rewrite
 }
 
 func vNondetFileMaps() Maps {
@@ -184,4 +185,37 @@ func H_C19_copy() {
 	vAssert(err == nil, "copy: succeeds for JSON types")
 	vAssert(vDeepEq(m, map[string]interface{}(c)), "copy: the copy is deeply equal to the original")
 	vCover("copy")
+}
+
+// writing a shorter list over an existing longer file: what is read back is what was written last
+func H_C19_rewrite() {
+	vResetDecOpts()
+	name := vTempFile("rw")
+	long := Maps{Map{"a": "xxxxxxxx"}, Map{"b": map[string]interface{}{"c": "yyyy", "d": "zzzz"}}, Map{"e": "1"}}
+	short := Maps{Map{"q": vNondetString(1, 1, "xy")}}
+	form := vChoose(4)
+	write := func(ms Maps) error {
+		switch form {
+		case 0:
+			return ms.XmlFile(name)
+		case 1:
+			return ms.XmlFileIndent(name, "", " ")
+		case 2:
+			return ms.JsonFile(name)
+		default:
+			return ms.JsonFileIndent(name, "", " ")
+		}
+	}
+	vAssert(write(long) == nil && write(short) == nil, "rewrite: both writes succeed")
+	var got Maps
+	var err error
+	if form < 2 {
+		got, err = NewMapsFromXmlFile(name)
+	} else {
+		got, err = NewMapsFromJsonFile(name)
+	}
+	vAssert(err == nil, "rewrite: the rewritten file is read back without error")
+	vAssert(len(got) == 1 && vDeepEq(map[string]interface{}(got[0]), map[string]interface{}(short[0])), "rewrite: exactly the Maps written last are read back")
+	os.Remove(name)
+	vCover("rewrite")
 }
